@@ -249,7 +249,7 @@ def _fresh_is_value(T):
 
 INT_BOUNDARY = [0, 1, -1, 127, 128, -128, -129, 255, 256, 32767, 32768, -32768, -32769, 65535, 65536,
                 2 ** 31 - 1, 2 ** 31, -2 ** 31, -2 ** 31 - 1, 2 ** 63 - 1, 2 ** 63, -2 ** 63, -2 ** 63 - 1, 2 ** 64]
-STR_SIZES = [0, 0, 1, 1, 2, 3, 5, 8, 13, 20, 39, 127, 128, 255, 256]
+STR_SIZES = [0, 0, 1, 1, 2, 3, 5, 8, 13, 20, 39, 125, 126, 127, 128, 129, 255, 256]
 LONG_SIZES = [999, 1000, 1001, 1999, 2000, 2001, 2500]
 
 
@@ -536,6 +536,9 @@ class HypChooser(object):
 
     def real_shift(self, path=''):
         return self.draw(st.integers(1, 9)) if self._pct(self.w['shift']) else 0
+
+    def real10_form(self, path=''):
+        return self.draw(st.integers(1, 4)) if self._pct(40) else 0
 
     def permute(self, n, what, path=''):
         if n < 2 or not self._pct(self.w['permute']):
